@@ -434,6 +434,25 @@ theorem staged_spec (h : StagedHyp cfg n tables) (caps : List Int)
     have := round_spec h cfg.cap (Int.le_refl _) (fun _ => rfl)
     simpa [stagedLoop] using this.1 (this.2.1 rfl).1
 
+/-- The objective columns of the returned rows. -/
+def objPart (cfg : Cfg K) (out : RoundOut) : List Vec :=
+  if out.retained then out.rows.map (List.take cfg.m) else out.rows
+
+/-- The objective part of what the staged join returns always has the exact front. -/
+theorem staged_objPart_front (h : StagedHyp cfg n tables) (caps : List Int)
+    (hcaps : ∀ c ∈ caps, cfg.cap ≤ c) :
+    front (objPart cfg (staged cfg caps tables)) = joinExactV cfg tables := by
+  have hs := staged_spec h caps hcaps
+  unfold objPart
+  cases hret : (staged cfg caps tables).retained with
+  | false =>
+    simp only [Bool.false_eq_true, if_false]
+    rw [(hs.1 hret).1]
+    exact front_idem _
+  | true =>
+    simp only [if_true]
+    exact (hs.2 hret).2.1
+
 /-- If no combination lies in a gap `(cap, capᵢ]`, the reservation columns are never retained. -/
 theorem stagedLoop_noGap (h : StagedHyp cfg n tables) (hd : cfg.dropRes = true) :
     ∀ caps : List Int, (∀ c ∈ caps, cfg.cap ≤ c) →
